@@ -170,6 +170,45 @@ def MemberN.dtor0 (nm : String) (first op cp : Tok) (quals : List Tok) (semi : T
     exact ⟨w7, [ev], ⟨⟨[w7], .one hi7, rfl⟩, by rw [hb]; exact .refl _, ⟨_, hst7, ⟨rfl, rfl, rfl, rfl⟩, hacc⟩, hev7, hmu7⟩,
       ev, d, m', hm', rfl, hk7, hid7, hpar7⟩
 
+/-- `N ( S1 prefix1 n1 , … , Sk prefixk nk ) quals ;` in the body of a class called `N`: a constructor over a general
+    parameter list (every parameter a type specifier, a declarator prefix and a name: `PItemG`) -/
+def MemberN.ctorP (nm : String) (first op : Tok) (ps : List (PItemG × Tok)) (last : PItemG) (cp : Tok) (quals : List Tok) (semi : Tok) :
+    MemberN env F (core F (D + 1 + 1 + 1 + 1)) (nameIs nm) where
+  At := fun b b' =>
+    (first.type = "NAME" ∧ first.value = nm ∧ identVal nm = true ∧ nm.isEmpty = false ∧ op.type = "(" ∧ op.value ≠ "auto" ∧
+      cp.type = ")" ∧ cp.value = ")" ∧ semi.type = ";" ∧ semi.value = ";" ∧ quals.length + 1 ≤ F ∧ 2 ≤ F ∧
+      ((∀ q ∈ ps, q.1.OK env F D ∧ q.2.type = "," ∧ q.2.value ≠ ")") ∧ last.OK env F D ∧ ps.length + 1 ≤ F ∧
+        (∃ f prest, plistToks ps last cp = f :: prest ∧ f.type ≠ "*" ∧ f.type ≠ "&" ∧ Gen.msvcConventions.contains f.value = false)) ∧
+      (∀ d acc, ∃ m', applyQuals { ctorFunction nm d with parameters := ps.map (fun q => q.1.param) ++ [last.param], isMethod := true, constructor := true, access := some acc }
+        (quals.map (·.value)) = some m')) ∧
+    Yields env.cfg b (first :: op :: (plistToks ps last cp ++ (quals ++ [semi]))) b'
+  Ev := fun blk rest acc evs => ∃ ev d m',
+    applyQuals { ctorFunction nm d with parameters := ps.map (fun q => q.1.param) ++ [last.param], isMethod := true, constructor := true, access := some acc } (quals.map (·.value)) = some m' ∧
+    evs = [ev] ∧ ItemEvent blk rest ev (.classMethod m')
+  accOut := id
+  size := 1
+  at_sigEq := by
+    intro b b' k ⟨hok, hy⟩ hs
+    obtain ⟨k', hy', hs'⟩ := hy.sigEq hs
+    exact ⟨k', ⟨hok, hy'⟩, hs'⟩
+  sound := by
+    intro w b' blk rest acc hst hk hP hacc hmu ⟨⟨h1, h2, h3, h4, h5, h6, h7, h8, h9, h10, h11, h12, ⟨hps, hl, hFp, f, prest, htoks, hf1, hf2, hf3⟩, hq⟩, hy⟩
+    obtain ⟨bn, t0, hy⟩ := hy.cons_inv
+    obtain ⟨bo, t1, hy⟩ := hy.cons_inv
+    rw [htoks] at hy
+    obtain ⟨b1, tf, hy⟩ := Yields.cons_inv hy
+    obtain ⟨bc, hyp, hy⟩ := hy.split
+    obtain ⟨bq, hyq, hy⟩ := hy.split
+    obtain ⟨d, bD, hd⟩ := getDoxygen_ok env.cfg hp env.mcRe w.buf (some first) bn t0
+    obtain ⟨m', hm'⟩ := hq d acc
+    obtain ⟨w7, ct, ev, hi7, hb, _, hst7, hev7, hk7, hid7, hpar7, _, _, hmu7, _⟩ :=
+      toplevel_ctor env hp F D w first op f semi _ quals m' bn bo b1 bc bq b' blk rest hst hk (by rw [h2]; exact hP) hmu
+        (by rw [hnf]; simp) t0 h1 (by rw [h2]; exact h3) (by rw [h2]; exact h4) t1 h5 h6 tf hf1 hf2 hf3
+        (fun W f' hW hft hfv => parseParameters_gen_flex env F D ps last cp W b1 bc f f' prest hps hl h7 h8 htoks hW hft hfv hyp hFp)
+        hyq hy.single_inv h9 h10 h11 h12 d bD hd (by rw [h2, hacc]; exact hm')
+    exact ⟨w7, [ev], ⟨⟨[w7], .one hi7, rfl⟩, by rw [hb]; exact .refl _, ⟨_, hst7, ⟨rfl, rfl, rfl, rfl⟩, hacc⟩, hev7, hmu7⟩,
+      ev, d, m', hm', rfl, hk7, hid7, hpar7⟩
+
 variable (hskip : ∀ i h, env.skip i h = false)
 
 /-- **`class a::b { members };` is an item** (`struct` and `union` too): the class block's start
